@@ -206,9 +206,13 @@ theorem run_skipNl (bs : List Nat) : ∀ (m : M), m.st = .skipNl → m.first = [
       exact ih _ (by simp [hst]) (by simp [hf]) (by simp [hid]) (by simp [hev])
 
 /-- **the byte-level state machine of `parse_body` is the token-level interpreter**, for every
-byte string (white space of any kind and amount, LF / CRLF, blank lines, tokens anywhere). -/
-theorem parseBody_eq_tokenSpec (bs : List Nat) : parseBody none bs = tokenSpec bs := by
+byte string (white space of any kind and amount, LF / CRLF, blank lines, tokens anywhere) and both start states. -/
+theorem parseBody_eq_tokenSpec (bs : List Nat) (nl : Bool) : parseBody none bs nl = tokenSpec bs nl := by
   unfold parseBody tokenSpec
-  exact run_skipNl bs {} rfl rfl rfl rfl
+  cases nl with
+  | false => exact run_skipNl bs (initM false) rfl rfl rfl rfl
+  | true =>
+    rw [run_eq_interp bs (initM true) ⟨by simp [initM], by simp [initM]⟩]
+    simp [buf, absSt, initM, endsWs_eq, splitWs]
 
 end Wellen.VcdBody
